@@ -480,17 +480,38 @@ Proof.
   all: rewrite <- R1; unfold R; rewrite E1, Er; reflexivity.
 Qed.
 
+Lemma U_orphan X c h tag c' h' :
+  U (upd_chan X c h (fun ch => ch <| ch_unacked ::= map (orphan tag) |>)) c' h' =
+  if (c' =? c) && (h' =? h) then map (orphan tag) (U X c h) else U X c' h'.
+Proof. rewrite U_upd_chan. destruct (_ && _); auto. unfold U. destruct (get_chan X c h); reflexivity. Qed.
+
 (* basic.cancel changes neither a ready list nor any channel's outstanding deliveries: the cancelled consumer's
-   deliveries stay unsettled on the channel (they can still be acked, and go back when the channel ends) *)
+   deliveries stay unsettled on the channel (they can still be acked, and go back when the channel ends); all that
+   changes is that they no longer name the consumer tag (u_ctag), which may be used again *)
 Theorem cancel_keeps_messages cfg fx s c h tag nowait :
   let s' := fst (fst (handle_method cfg fx s c h (MCancel tag nowait))) in
-  (forall q, R s' q = R s q) /\ (forall c' h', U s' c' h' = U s c' h').
+  (forall q, R s' q = R s q) /\
+  (forall c' h', U s' c' h' = U s c' h' \/ U s' c' h' = map (orphan tag) (U s c' h')) /\
+  (forall c' h', map u_tag (U s' c' h') = map u_tag (U s c' h') /\ map u_msg (U s' c' h') = map u_msg (U s c' h') /\
+                 map u_qid (U s' c' h') = map u_qid (U s c' h') /\ map u_queue (U s' c' h') = map u_queue (U s c' h')).
 Proof.
-  cbv zeta. unfold handle_method. destruct (get_chan s c h) as [ch|]; [|split; reflexivity].
-  destruct (find_consumer ch tag); unfold ok, refuse; cbn [fst]; [|split; reflexivity].
-  split.
-  - intros q. rewrite (R_same_queues _ _ q (queues_upd_chan _ _ _ _)). apply R_consumer_stop.
-  - intros c' h'. rewrite U_upd_chan_keep by reflexivity. apply U_consumer_stop.
+  cbv zeta. unfold handle_method. destruct (get_chan s c h) as [ch|]; [|repeat split; auto].
+  destruct (find_consumer ch tag); unfold ok, refuse; cbn [fst]; [|repeat split; auto].
+  assert (HU : forall c' h', U (upd_chan (upd_chan (consumer_stop s c h tag) c h
+                 (fun ch => ch <| ch_consumers ::= filter (fun cm => negb (seqb (c_tag cm) tag)) |>)) c h
+                 (fun ch => ch <| ch_unacked ::= map (orphan tag) |>)) c' h' = U s c' h' \/
+               U (upd_chan (upd_chan (consumer_stop s c h tag) c h
+                 (fun ch => ch <| ch_consumers ::= filter (fun cm => negb (seqb (c_tag cm) tag)) |>)) c h
+                 (fun ch => ch <| ch_unacked ::= map (orphan tag) |>)) c' h' = map (orphan tag) (U s c' h')).
+  { intros c' h'. rewrite U_orphan. destruct ((c' =? c) && (h' =? h)) eqn:E.
+    - apply andb_true_iff in E. destruct E as [E1 E2]. apply N.eqb_eq in E1. apply N.eqb_eq in E2. subst c' h'.
+      right. rewrite U_upd_chan_keep by reflexivity. rewrite U_consumer_stop. reflexivity.
+    - left. rewrite U_upd_chan_keep by reflexivity. apply U_consumer_stop. }
+  split; [|split].
+  - intros q. rewrite (R_same_queues _ _ q (queues_upd_chan _ _ _ _)). rewrite (R_same_queues _ _ q (queues_upd_chan _ _ _ _)). apply R_consumer_stop.
+  - exact HU.
+  - intros c' h'. destruct (HU c' h') as [-> | ->]; [auto|].
+    rewrite map_orphan_tag, map_orphan_msg, map_orphan_qid, map_orphan_queue. auto.
 Qed.
 
 (* ------------------------------------------------------------------ *)
